@@ -36,6 +36,7 @@ func checkC20(p *core.Program, r *core.Report) {
 		"(O20.4) the handler writes one status per request (C09 O9.1). Not decided: counting inside promhttp, gauge decrement on panics, scrape availability under load."
 	r.Rule("O20.1", "prover server serves the instrumented mux; metrics server serves HandlerFor(same registry) at /metrics; two distinct servers, both started")
 	r.Rule("O20.2", "the /prove handler is registered only through the instrumented mux; nothing on the default mux")
+	r.Rule("O20.5", "the prover server sets no write deadline (WriteTimeout): a counted response must still be sendable however long the proof takes")
 	r.Rule("O20.4", "the handler sets exactly one status per request on every path (the counter records the last WriteHeader)")
 	r.Rule("O20.3", "instrumentation chain: InFlight(gauge) and Counter(counter vec {method, code}) around the handler, collectors registered on the served registry")
 	r.Trusted = append(r.Trusted, "promhttp.InstrumentHandlerCounter/InFlight count each request once by (method, code) and decrement the gauge on return", "promauto registers collectors on the given registerer", "net/http routes by longest pattern")
@@ -147,6 +148,14 @@ func checkC20(p *core.Program, r *core.Report) {
 	}
 	r.Check(prover.alloc.Key() != metrics.alloc.Key() && started[prover.alloc.Key()] && started[metrics.alloc.Key()], "O20.1", "server.Run: two distinct started servers", p.Pos(run.Pos()),
 		"prover and metrics servers are distinct allocations, both handed to a ListenAndServe job", fmt.Sprintf("prover started=%v metrics started=%v distinct=%v: the metrics endpoint would not be available on its own address", started[prover.alloc.Key()], started[metrics.alloc.Key()], prover.alloc.Key() != metrics.alloc.Key()))
+	// O20.5: no write deadline on the prover server. net/http starts WriteTimeout when the request headers have been read; a
+	// proof that takes longer is still computed and counted by the instrumentation, but its response can no longer be sent
+	// — and proving time grows with the circuit, so any finite deadline loses responses for some dimensions.
+	if wt := prover.rec.FieldOf("WriteTimeout"); wt != nil && wt.K != tf.KZero && !isConstInt(wt, 0) {
+		r.Violation("O20.5", "server.Run: prover server write deadline", p.Pos(run.Pos()), "the prover server sets WriteTimeout = %s: a /prove request that outlasts it is counted in http_requests_total but its response is never sent", describe(wt))
+	} else {
+		r.OK("O20.5", "server.Run: prover server write deadline", p.Pos(run.Pos()), "no WriteTimeout on the prover server")
+	}
 	// prover handler: instrumented mux allocation
 	ph := prover.rec.FieldOf("Handler")
 	var muxRec *tf.Term
